@@ -88,13 +88,32 @@ def _worker_run(case):
         signal.alarm(0)
 
 
+def _retry_timeouts(mod, cases, obs):
+    """A case that timed out in the (possibly overloaded) pool is run once more, alone, with three times the
+    budget, before the time-out is believed (a time-out is reported as `implementation-run-failed`)."""
+    slow = [i for i, o in enumerate(obs) if isinstance(o, dict) and o.get("harness_error") == "Timeout"]
+    if not slow or len(slow) > 20:
+        return obs
+    ctx = mp.get_context("fork")
+    for i in slow:
+        with ctx.Pool(1, initializer=_worker_init_slow, initargs=(mod.ID, 3 * getattr(mod, "CASE_TIMEOUT", CASE_TIMEOUT))) as pool:
+            obs[i] = pool.map(_worker_run, [cases[i]])[0]
+    return obs
+
+
+def _worker_init_slow(prop_id: str, timeout: int):
+    _worker_init(prop_id)
+    _MOD.CASE_TIMEOUT = timeout
+
+
 def run_impl_all(mod, cases):
     if not cases:
         return []
     if getattr(mod, "PARALLEL", True) and len(cases) > 8:
         ctx = mp.get_context("fork")
         with ctx.Pool(min(NCPU, max(1, len(cases) // 4)), initializer=_worker_init, initargs=(mod.ID,)) as pool:
-            return pool.map(_worker_run, cases, chunksize=max(1, len(cases) // (NCPU * 8)))
+            obs = pool.map(_worker_run, cases, chunksize=max(1, len(cases) // (NCPU * 8)))
+        return _retry_timeouts(mod, cases, list(obs))
     _worker_init(mod.ID)
     return [_worker_run(c) for c in cases]
 
